@@ -294,3 +294,40 @@ Definition retval_eqb (a b : retval) : bool :=
   end.
 Definition bundle_result_eqb (a b : py_result (doc * list retval)) : bool :=
   py_result_eqb (fun x y => doc_eqb (fst x) (fst y) && py_list_eqb retval_eqb (snd x) (snd y)) a b.
+
+(* ---- specification vocabulary for the theorems of Props/C26.v ---------------------------------------- *)
+
+Definition keys (tm : tmap) : list Z := map fst tm.
+
+(* "the last pair for key a": the characterisation of a lookup in a map built by successive updates *)
+Definition last_pair (ps : list (Z * Z)) (a f : Z) : Prop :=
+  exists l1 l2, ps = l1 ++ (a, f) :: l2 /\ ~ In a (keys l2).
+
+(* how one row id inside a reference value must come out: a negative id becomes the id its target table's map
+   holds for it, anything else stays *)
+Definition id_resolved (tm : tmap) (z z' : Z) : Prop :=
+  if z <? 0 then lookup z tm = Some z' else z' = z.
+
+Definition ref_resolved (tm : tmap) (v v' : refval) : Prop :=
+  match v with
+  | RInt z => exists z', v' = RInt z' /\ id_resolved tm z z'
+  | ROther _ => v' = v
+  end.
+
+Definition list_resolved (tm : tmap) (v v' : reflistval) : Prop :=
+  match v with
+  | LList l => exists l', v' = LList l' /\ Forall2 (id_resolved tm) l l'
+  | _ => v' = v
+  end.
+
+Definition wf_maps (m : maps) : Prop := forall t, wf_tmap (m t).
+
+(* the (temp, allocated) pairs a bundle prefix contributed to table t, read off the actions and their retValues *)
+Fixpoint bundle_pairs (acts : list action) (rets : list retval) (t : tid) : list (Z * Z) :=
+  match acts, rets with
+  | AAdd t' ids _ _ :: acts', RetIds out :: rets' =>
+      (if t' =? t then temp_pairs ids out else []) ++ bundle_pairs acts' rets' t
+  | _ :: acts', _ :: rets' => bundle_pairs acts' rets' t
+  | _, _ => []
+  end.
+
